@@ -32,6 +32,9 @@ class Truth:
 V4_WEATHER = {'temperature': 'anc_air_temperature', 'pressure': 'anc_air_pressure',
               'humidity': 'anc_air_relative_humidity', 'wind_speed': 'anc_mean_wind_speed',
               'wind_direction': 'anc_wind_direction'}
+V2_WEATHER = {'temperature': 'Enviro/asc.air.temperature', 'pressure': 'Enviro/asc.air.pressure',
+              'humidity': 'Enviro/asc.air.relative-humidity', 'wind_speed': 'Enviro/asc.wind.speed',
+              'wind_direction': 'Enviro/asc.wind.direction'}
 V3_WEATHER = {'temperature': 'anc/air_temperature', 'pressure': 'anc/air_pressure',
               'humidity': 'anc/air_relative_humidity', 'wind_speed': 'anc/mean_wind_speed',
               'wind_direction': 'anc/wind_direction'}
@@ -79,7 +82,12 @@ def build(case, tmp):
                               open_kwargs={'keepdims': case['keepdims']})
         tr.keepdims = case['keepdims']
     elif fmt == 'v2':
+        wx = None
+        if not case.get('lost') and not case.get('cf2'):
+            tr.weather = weather_ramps(rng)
+            wx = {V2_WEATHER[k]: [(-1.0, a), (case['T'] + 1.0, b)] for k, (a, b) in tr.weather.items()}
         syn = h5synth.make_v2(path, rng, T=case['T'], F=case['F'], n_ants=case['n_ants'], shuffle_bls=True,
+                              extra_sensors=wx,
                               dup_final_dump=case['dup'], open_kwargs={'keepdims': case['keepdims']},
                               lost=case.get('lost') or None, config_as_datasets=case['seed'] % 4 == 1,
                               **({'centre_freq': [(-2.0, case['cf2']['first']), (case['cf2']['at'] - 0.4,
@@ -268,6 +276,21 @@ def reopen_with_offset(ctx, case, tr):
         return f'katdal.open(..., time_offset={off}): start / end time did not move by the offset'
     if not np.array_equal(np.asarray(d1.vis[:]), np.asarray(d0.vis[:])):
         return f'katdal.open(..., time_offset={off}) changed the visibilities'
+    if getattr(tr, 'weather', None) and len(t0) >= 3:
+        # per-dump sensors are the values AT the dumps the data set labels: with an offset of exactly one dump period
+        # dump i carries the label dump i+1 has without the offset, hence the sensor values dump i+1 has there
+        dp = float(d0.dump_period)
+        try:
+            d2 = tr.syn.open(**dict(tr.syn.open_kwargs, time_offset=dp))
+            for prop in tr.weather:
+                v0, v2 = np.asarray(getattr(d0, prop), dtype=float), np.asarray(getattr(d2, prop), dtype=float)
+                if v0.shape != v2.shape or not np.allclose(v2[:-1], v0[1:], rtol=0, atol=1e-6):
+                    return (f'katdal.open(..., time_offset=one dump period): d.{prop} reads {v2[:4].tolist()}, one dump '
+                            f'later without the offset it reads {v0[1:5].tolist()}: the per-dump sensor values are not '
+                            f'those of the dumps the timestamps name')
+        except Exception as e:   # noqa: BLE001
+            return f'katdal.open(..., time_offset=one dump period): reading the weather sensors raised {type(e).__name__}: {str(e)[:80]}'
+        ctx.tag('reopen-time-offset-sensors')
     return None
 
 
@@ -323,6 +346,25 @@ def drive(ctx, case, d, tr):
     nontrivial = False
     T, F, B = len(tr.timestamps), len(tr.freqs), len(tr.corrprods)
     fmask = 0xFF       # flags selection in force (v4 only; persists until the next flags= criterion)
+    if case['seed'] % 4 == 2:
+        # a refused call (the first spectral window index that does not exist -> IndexError): "the reported shape
+        # ALWAYS equals (len(timestamps), len(freqs), len(corr_products))", also right after it
+        n_spw = len(d.spectral_windows)
+        try:
+            d.select(spw=n_spw)
+            return f'select(spw={n_spw}) on a data set with {n_spw} spectral window(s) was accepted', nontrivial
+        except IndexError:
+            pass
+        try:
+            lens = (len(np.asarray(d.timestamps[:])), len(d.freqs), len(d.corr_products))
+            shp = tuple(int(x) for x in d.shape)
+            advertised = [tuple(int(x) for x in a.shape) for a in (d.vis, d.flags, d.weights)]
+        except Exception as e:   # noqa: BLE001
+            return f'after the refused select(spw={n_spw}) the data set cannot be read: {type(e).__name__}: {str(e)[:80]}', nontrivial
+        if shp != lens or (not tr.keepdims and any(a != shp for a in advertised)):
+            return (f'after the refused select(spw={n_spw}): shape {shp}, (len(timestamps), len(freqs), '
+                    f'len(corr_products)) = {lens}, array shapes {advertised}'), nontrivial
+        ctx.tag('refused-spw')
     for op in case['ops']:
         # snapshot: acquire indexers under the current selection
         snap = None
@@ -424,7 +466,8 @@ def drive(ctx, case, d, tr):
             try:
                 got = [np.asarray(i[:]) for i in snap['ind']]
             except Exception as e:   # noqa: BLE001
-                return f'indexer acquired before select() raised {type(e).__name__} when read afterwards', nontrivial
+                return (f'indexer acquired before select() raised {type(e).__name__} when read afterwards '
+                        f'({str(e)[:90]})'), nontrivial
             for name, g, e in zip(('vis', 'flags', 'weights'), got, blk):
                 if g.shape != e.shape or not np.array_equal(g, e):
                     return (f'{name} indexer acquired before a select() call no longer describes the selection that was '
@@ -521,7 +564,12 @@ def shrink(ctx, case, what):
 
 
 def m_v1_snapshot(case, what):
-    return case.get('fmt') == 'v1' and 'acquired before' in what
+    """the recorded defect needs a later select() that narrows the product mask IN PLACE, i.e. one whose explicit
+    `reset` leaves the baseline dimension out (a reset that includes it installs a fresh mask, which the earlier
+    indexer does not see)"""
+    return (case.get('fmt') == 'v1' and 'acquired before' in what
+            and any(op['select'].get('reset') is not None and 'B' not in op['select']['reset']
+                    for op in case.get('ops', []) if op.get('select')))
 
 
 def m_v1_empty_products(case, what):
